@@ -628,7 +628,41 @@ class Engine:
         yield ("fall", None, head.assume(i >= n_cur))
 
     def s_While(self, s, st):
-        raise Unsupported("while loop")
+        """while <test>: sidecar invariant keyed by (function label, loop ordinal), `inv(None, st)`.  Obligations: the invariant holds
+        on entry; it is preserved by every iteration that falls through (or continues); the state after the loop is
+        `invariant and not test` (or the state at a break).  Termination is not proved (partial correctness, as everywhere)."""
+        if s.orelse:
+            raise Unsupported("while/else")
+        fr = self.frames[-1]
+        key = (fr.label, fr.loop_index.get(id(s), -1))
+        spec = self.invariants.get(key)
+        if spec is None:
+            raise Unsupported("loop %s#%d needs an invariant" % key)
+        inv = spec["inv"]
+        self.obl.append(("%s#loop%d:init" % key, st, inv(None, st)))
+        st1 = st
+        for name, mk in spec.get("mod", {}).items():
+            st1 = st1.bind(name, mk(name))
+        zh = dict(st1.zh)
+        for f in spec.get("modheap", ()):
+            zh[f] = fresh("H_" + f, zh[f].sort())
+        st1 = st1.with_zh(zh)
+        head = st1.assume(inv(None, st1))
+        def k(c, st2):
+            c = self.truth(c)
+            if isinstance(c, bool):
+                c = z3.BoolVal(c)
+            if self.feasible(st2, c):
+                for kind2, val2, st3 in self.block(s.body, st2.assume(c)):
+                    if kind2 in ("fall", "continue"):
+                        self.obl.append(("%s#loop%d:preserved" % key, st3, inv(None, st3)))
+                    elif kind2 == "break":
+                        yield ("fall", None, st3)
+                    else:
+                        yield (kind2, val2, st3)
+            if self.feasible(st2, z3.Not(c)):
+                yield ("fall", None, st2.assume(z3.Not(c)))
+        yield from self.ev(s.test, head, k)
 
     def s_Delete(self, s, st):
         raise Unsupported("del")
